@@ -415,7 +415,7 @@ func (c *ServerChannel) FinishSession(ctx context.Context) error {
 
 	err := c.sendSession(ctx, &ses)
 
-	c.setState(SessionStateFinished)
+	c.setTerminalState(SessionStateFinished)
 
 	if err == nil {
 		if err = c.transport.Close(); err != nil {
@@ -441,7 +441,7 @@ func (c *ServerChannel) FailSession(ctx context.Context, reason *Reason) error {
 	}
 	err := c.sendSession(ctx, &ses)
 
-	c.setState(SessionStateFailed)
+	c.setTerminalState(SessionStateFailed)
 
 	if err == nil {
 		if err = c.transport.Close(); err != nil {
